@@ -92,11 +92,8 @@ class GaussianMLPEnsemble(nnx.Module):
             log_var = min_log_var + nnx.softplus(log_var - min_log_var)
             return log_var
 
-        self._safe_log_var_i = nnx.vmap(safe_log_var, in_axes=(0, None, None))
-        self._safe_log_var = nnx.vmap(
-            self._safe_log_var_i,
-            in_axes=(0, None, None),
-        )
+        self._safe_log_var_i = safe_log_var
+        self._safe_log_var = safe_log_var
 
         self.raw_min_log_var = nnx.Param(jnp.zeros(self.n_outputs))
         self.raw_max_log_var = nnx.Param(jnp.zeros(self.n_outputs))
